@@ -10,5 +10,10 @@ ASSUMPTIONS = ["block-memory semantics of raw pointers / Vec / Box as modelled i
 TRUSTED_EXTRA = ["ledger allocator harness/src/ledger.rs (tracked sections, quarantine, red zones)"]
 DIRECT = r'^c02-|^c03-freed-while-in-use|^abnormal-exit'
 def translators(ctx, bins): pass
-def engines(ctx, bins): eng_heap.absorb(ctx, eng_heap.run(ctx, bins), DIRECT)
+def engines(ctx, bins):
+    eng_heap.absorb(ctx, eng_heap.run(ctx, bins), DIRECT)
+    import eng_bufmut
+    r2 = eng_bufmut.run(ctx, bins)       # fixed regions inside guard bytes, UninitSlice index/length checks
+    r2f = dict(r2); r2f['mism'] = [m for m in r2['mism'] if m['kind'] in ('c11-guard', 'c11-uninit-slice') or m['kind'].startswith('model-')]
+    eng_bufmut.absorb(ctx, r2f, r'^c11-guard|^c11-uninit-slice|^hang|^abnormal')
 def replay(ctx, bins, payload): eng_heap.replay(ctx, bins, payload, DIRECT)
